@@ -61,6 +61,7 @@ def run(ctx):
     # an adapter handed to the next stage keeps its replica: the PopBack / PopFront that enforce the limit are computed from it
     from . import c12 as _c12
     _c12.r12_5(ctx)
+    _c12.r12_6(ctx)   # the hand-over cuts a Tail's replica at len - limit
     _c12.r12_4(ctx)   # .. and drops the diffs it has already folded into the view it hands over (replayed, they push the view past its limit)
 
 
